@@ -29,7 +29,7 @@ def do_case(ctx, inp):
     for n in subs(t):
         byid.setdefault(n["id"], n)
     over = {k: v for k, v in A.items() if k not in lv}
-    for j in range(inp.get("n_interp", 40 if ctx.quick else 200)):
+    for j in range(inp.get("n_interp", 16 if ctx.quick else 120)):
         I = {}
         for n, (lo, hi) in rest.items():
             r = ctx.rng.random()
@@ -72,7 +72,7 @@ def do_case(ctx, inp):
 
 
 def run(ctx):
-    n_models = (60 if ctx.quick else 800) * (3 if ctx.search else 1)
+    n_models = (150 if ctx.quick else 800) * (3 if ctx.search else 1)
     for _ in range(n_models):
         a, o, t = gen_valid(ctx.rng, ctx.quick, prefix_p=0.2)
         for _ in range(3):
